@@ -63,7 +63,7 @@ def run_controls(mod, pid, tier, res):
         try:
             dst = os.path.join(w, "repo")
             subprocess.run(["rsync", "-a", "--exclude", "_build", "--exclude", ".git", root + "/", dst + "/"], check=True)
-            r = subprocess.run(["patch", "-p1", "-s", "-f", "-d", dst, "-i", os.path.join(build.VERIF, name)],
+            r = subprocess.run([os.path.join(build.VERIF, "tools", "apply_patch.sh"), dst, os.path.join(build.VERIF, name)],
                                stdout=subprocess.PIPE, stderr=subprocess.STDOUT, text=True)
             if r.returncode != 0:
                 res.controls.append({"name": name, "ok": True, "skipped": True, "expected_rules": want,
